@@ -24,14 +24,20 @@
       removed twice; the trim goroutine sleeping by the hard limit) with `decide` witnesses of the old behaviour;
     * `stub_slot_time`, `awaiter_offset_partial`, `deliver_places_partial`, `copy_offset_partial` — the first-round
       single-step placement lemmas (subsumed by `placement`).
+    * `no_orphan_awaiter`, `no_request_waits_forever` — WHOLE-TRACE message bookkeeping (SH.Lemmas.TsCacheWait): an
+      unfinished request's `waitN` is exactly [own load in flight] + the awaiters it has registered, a chunk with
+      awaiters is covered by an in-flight load, `loading` counts the in-flight loads covering an attached chunk; every
+      awaiter gets exactly one message when a covering load finishes (ok or error); with no load in flight every
+      request has returned;
   Not proved (checked by the correspondence and the direct oracle only): that a successful request has EVERY slot of
-  its range filled, and "every awaiter receives exactly one message" (no_orphan_awaiter) — see the note at the end.
+  its range filled (`request_complete`) — see the note near the end.
   On a tree without fixes/C23-cache2-trim-wakeups-and-double-remove.diff the three decision-site theorems do not
   build (SH.Gen.C23 then says hardLimit / whenBelow / no guard) — that is the intended alarm; the `example`s
   next to them show the old behaviour violating the property on the states observed on the real code.
 -/
 import SH.Model.TsCache
 import SH.Lemmas.TsCachePlace
+import SH.Lemmas.TsCacheWait
 import SH.Gen.C23
 namespace SH.Props.C23
 open SH.TsCache
@@ -1209,17 +1215,63 @@ theorem returned_slot_time (cfg : Cfg) (wf : SH.TsCache.Place.WF cfg) (hs : 0 < 
 
 example : (0 : Int) < cfg0.step ∧ 0 < cfg0.K := by decide
 
-/-! ## Not proved: `no_orphan_awaiter` and "a successful request has every slot filled"
+/-! ## No orphan awaiter: message bookkeeping over whole traces (SH.Lemmas.TsCacheWait)
 
-  Attempted in the second round, not closed.  The invariant needed is (W1) for every unfinished loader
-  `waitN = [loadPending] + #{awaiters with req = id}` over all chunks, (W2) every chunk with awaiters is in the chunk
-  list of an in-flight loader, which in turn needs (W5) `chunk.loading = #{in-flight loaders covering it}` for attached
-  chunks — a chunk can be loaded by two loaders at once (adopt rule), so implications do not suffice and the counts
-  must be carried through the nested folds of `loadChunks` (per chunk, per awaiter, over all loaders).  The
-  ingredients that are in place: loader ids are unique and awaiters always name an existing loader (`PInv.nd`,
-  `AwOK`), a loader's chunk list never changes after `init` and is contiguous (`Prog`), `publish` empties the
-  awaiter list and `deliver` is applied once per awaiter (definitions).  Until then both statements are checked by
-  the correspondence (per-chunk awaiter counts, request completion) and the oracles `request-stuck`,
-  `request-never-returns`, `misplaced-rows` (which demands non-empty slots). -/
+  For every sequence of operations (fresh request ids, well-formed shard) — including invalidations, trimming,
+  eviction, reset and limit changes between the start and the end of a load — the state satisfies:
+    W1  an unfinished request's `waitN` is exactly the number of messages still owed to it: one for its own load in
+        flight plus one per awaiter it has registered on any chunk (attached or detached); a finished request is
+        owed nothing.  `loadChunks` empties the awaiter list of every chunk it publishes and sends one message per
+        awaiter (ok or error), which is exactly what keeps W1 — every awaiter gets exactly one message;
+    W2  a chunk that has awaiters is in the chunk list of a load that is in flight (so that message will be sent);
+    W5  the `loading` counter of an attached chunk is the number of in-flight loads covering it (a chunk can be
+        loaded by two requests at once — the adopt rule);
+  hence `no_request_waits_forever`: whenever no load is in flight, every request has returned. -/
+
+open SH.TsCache.Wait in
+/-- **W1 / W2 / W5** after any sequence of operations -/
+theorem no_orphan_awaiter (cfg : Cfg) (wf : SH.TsCache.Place.WF cfg) (ops : List Op)
+    (hf : SH.TsCache.Place.FreshIds (init cfg) ops) :
+    (∀ l ∈ (run (init cfg) ops).loaders,
+      (l.finished = false → (l.waitN : Int) = (if l.loadPending then 1 else 0) + awCount l.id (run (init cfg) ops).chunks ∧ l.waitN ≠ 0) ∧
+      (l.finished = true → awCount l.id (run (init cfg) ops).chunks = 0 ∧ l.loadPending = false)) ∧
+    (∀ cid, (getChunk (run (init cfg) ops).chunks cid).awaiters ≠ [] →
+      ∃ l ∈ (run (init cfg) ops).loaders, l.loadPending = true ∧ ∃ v ∈ l.chunks, v.cid = cid) ∧
+    (∀ cid, (getChunk (run (init cfg) ops).chunks cid).detached = false →
+      (getChunk (run (init cfg) ops).chunks cid).loading = cover cid (run (init cfg) ops).loaders) := by
+  have h := (run_B ops (init cfg) wf hf (Both_init cfg)).2
+  exact ⟨h.w1, fun cid hne => cover_pos cid _ (h.w2 cid hne), h.w5⟩
+
+open SH.TsCache.Wait in
+/-- **No request waits forever** (provided loads finish): in any reachable state in which no load is in flight,
+    every request has returned. -/
+theorem no_request_waits_forever (cfg : Cfg) (wf : SH.TsCache.Place.WF cfg) (ops : List Op)
+    (hf : SH.TsCache.Place.FreshIds (init cfg) ops)
+    (hidle : ∀ l ∈ (run (init cfg) ops).loaders, l.loadPending = false) :
+    ∀ l ∈ (run (init cfg) ops).loaders, l.finished = true :=
+  idle_all_finished _ (run_B ops (init cfg) wf hf (Both_init cfg)).2 hidle
+
+/-- non-vacuity: request 2 attaches to the load of request 1 (one awaiter, `waitN = 1`, no own load); the slot is
+    invalidated and the bucket evicted while the load is in flight; when the load finishes both have returned -/
+def ops1 : List Op :=
+  [ .get 1 1 0 false 100 102 200000000000, .get 2 1 0 false 100 101 200000000001,
+    .inv [100] 200000000002, .rmBucket 1 200000000003 ]
+example : SH.TsCache.Place.FreshIds (init cfg0) (ops1 ++ [.fin 1 true 1 200000000004]) := by decide
+example : ((run (init cfg0) ops1).loaders.map (fun l => (l.id, l.waitN, l.loadPending, l.finished,
+      SH.TsCache.Wait.awCount l.id (run (init cfg0) ops1).chunks))) =
+    [(1, 1, true, false, 0), (2, 1, false, false, 1)] := by decide
+example : ((run (init cfg0) (ops1 ++ [.fin 1 true 1 200000000004])).loaders.map (fun l => (l.id, l.finished, l.gotErr,
+      l.data.map (fun x => x.map (·.t))))) =
+    [(1, true, false, [some 100, some 101]), (2, true, false, [some 100, none])] := by decide
+
+/-! ## Not proved: a successful request has every slot of its range filled (`request_complete`)
+
+  With `placement` (every filled slot is right) and `no_orphan_awaiter` (every message arrives) what is missing is the
+  coverage argument: every index of `[ls, le)` is, at request begin, either copied from a fully filled cached chunk,
+  or covered by an awaiter `[a.ls, a.le)`, or by a chunk the request loads itself, and a successful delivery fills
+  exactly that range.  This needs (i) `chunk.data` always has `K` filled slots, (ii) the loader buffer has
+  `n·K` slots and `le ≤ n·K` (the ceiling in `chunkCount`), (iii) the ranges `[max pos ls, min le (pos+K))` of the
+  visited chunks tile `[ls, le)`.  Not attempted for lack of time; checked by the correspondence (every returned
+  slot is printed) and the oracle `misplaced-rows`, which demands the exact row count of every slot. -/
 
 end SH.Props.C23
